@@ -301,10 +301,20 @@ def check_request(case):
 
 
 request_st = st.fixed_dictionaries({"dev": st.sampled_from([-1, -2, 0, 1, 2, 0]), "name": st.sampled_from([-1, -1, -2, 0, 1, 2, 3, 4])})
+_i = st.integers(0, 11)
+# sequences that matter as sequences: every element of one property hidden (or shown) in one go; a value published, then
+# changed through the silent setter (reset), optionally published again
+_c07_macros = st.one_of(
+    st.tuples(_i, _i, st.booleans()).map(lambda t: [{"op": "eenable", "d": t[0], "v": t[1], "e": e, "on": t[2]} for e in range(6)]),
+    st.tuples(_i, _i, _i, drivers.value_st, drivers.value_st, st.booleans()).map(
+        lambda t: [{"op": "assign", "d": t[0], "v": t[1], "e": t[2], "val": t[3]}, {"op": "reset", "d": t[0], "v": t[1], "e": t[2], "val": t[4]}]
+        + ([{"op": "republish", "d": t[0], "v": t[1], "e": t[2]}] if t[5] else [])
+    ),
+)
 case_st = st.fixed_dictionaries(
     {
         "devices": drivers.deployment(max_devices=3).filter(lambda specs: all(drivers.spec_size_ok(s) for s in specs)),
-        "ops": st.lists(drivers.driver_op() | drivers.driver_macro() | st.fixed_dictionaries({"op": st.just("reset"), "d": st.integers(0, 11), "v": st.integers(0, 11), "e": st.integers(0, 11), "val": drivers.value_st}) | st.fixed_dictionaries({"op": st.just("eenable"), "d": st.integers(0, 11), "v": st.integers(0, 11), "e": st.integers(0, 11), "on": st.booleans()}), max_size=15).map(drivers.flatten_ops),
+        "ops": st.lists(drivers.driver_op() | drivers.driver_macro() | _c07_macros | st.fixed_dictionaries({"op": st.just("reset"), "d": st.integers(0, 11), "v": st.integers(0, 11), "e": st.integers(0, 11), "val": drivers.value_st}) | st.fixed_dictionaries({"op": st.just("eenable"), "d": st.integers(0, 11), "v": st.integers(0, 11), "e": st.integers(0, 11), "on": st.booleans()}), max_size=15).map(drivers.flatten_ops),
         "req": request_st,
         "proxy": st.sampled_from([False, False, True]),
     }
@@ -314,4 +324,4 @@ SUBCHECKS = {"request": check_request}
 
 
 def run(ctx):
-    ctx.hyp("request", case_st, check_request, ctx.scale(250, 6000))
+    ctx.hyp("request", case_st, check_request, ctx.scale(350, 6000))
